@@ -81,11 +81,19 @@ JLS_CPP_GUARD_START
  * @brief The maximum allowed number of sources.
  */
 #define JLS_SOURCE_COUNT (256)
+#if defined(JLS_VERIF) && defined(JLS_VERIF_SOURCE_COUNT)
+#undef JLS_SOURCE_COUNT
+#define JLS_SOURCE_COUNT (JLS_VERIF_SOURCE_COUNT)
+#endif
 
 /**
  * @brief The maximum allowed number of signals.
  */
 #define JLS_SIGNAL_COUNT (256)
+#if defined(JLS_VERIF) && defined(JLS_VERIF_SIGNAL_COUNT)
+#undef JLS_SIGNAL_COUNT
+#define JLS_SIGNAL_COUNT (JLS_VERIF_SIGNAL_COUNT)
+#endif
 
 /**
  * @brief The number of summary levels.
